@@ -531,6 +531,20 @@ def run(prog, tier):
                      'c3d::write clears or replaces the stream state', function=w.sig, expr=name)
     res.minimum('stream events in c3d::write', nevents, 4)
 
+    # branches taken both ways because they test a local the exploration does not track (a status / flag variable set from the stream state):
+    # paths through them may be infeasible, so a bad exit found behind one is not evidence
+    untracked_flags = set()
+
+    def _note_untracked_flag(cond):
+        for x in [cond] + list(w.descendants(cond)):
+            m_ = w.nodes[x]
+            if m_['k'] == 'DeclRefExpr' and m_['decl'].get('dk') == 'local' and m_['decl'].get('id') != sid and not is_stream_type(str(m_['decl'].get('type', ''))):
+                assigned_ = any((a_['k'] == 'BinaryOperator' and a_.get('op') == '=' and w.nodes[w.strip(a_['ch'][0], 'all')].get('decl', {}).get('id') == m_['decl']['id']) for a_ in w.all_nodes({'BinaryOperator'}))
+                from paths import local_init as _li5
+                ini_ = _li5(w, m_['decl']['id'])
+                dep_ = ini_ is not None and any(u in set(w.descendants(ini_)) | {ini_} for u in uses)
+                if assigned_ or dep_:
+                    untracked_flags.add(m_['decl'].get('name'))
     # exploration
     outv_ = {g.vertex_of.get(nid) for nid, (kind, name) in uses.items() if (kind == 'arg' and w.nodes[nid]['callee'].get('usr') in prog.funcs) or (kind == 'member' and name in WRITES)}
     outv_.discard(None)
@@ -581,6 +595,8 @@ def run(prog, tier):
                     br = g.branch[vid]
                     if br['tempdtor'] or br['termk'] in ('CXXTryStmt',) or br['cond'] < 0 or len(br['targets']) != 2:
                         tl = [t for ts in br['targets'] for t in ts]
+                        if br['termk'] == 'SwitchStmt' and br['cond'] >= 0:
+                            _note_untracked_flag(br['cond'])
                     else:
                         v = eval_bool(w, br['cond'], atom(ns))
                         if v is True:
@@ -589,6 +605,7 @@ def run(prog, tier):
                             tl = br['targets'][1]
                         else:
                             tl = br['targets'][0] + br['targets'][1]
+                            _note_untracked_flag(br['cond'])
                     # EH successors are not part of the branch targets: a throwing call as last
                     # element of a branching block is handled by the 'throw' target above
                 else:
@@ -624,6 +641,10 @@ def run(prog, tier):
                 last = (lab, s)
         return steps
 
+    if bad_exit and untracked_flags:
+        res.undecided('typestate', 'c3d::write normal exit', w.loc(), 'the outcome of the save is carried in local variable(s) %s that the exploration does not track: the exits found behind the tests of it may be infeasible '
+                      '[shape not read by the rule]' % sorted(untracked_flags), function=w.sig, expr='normal-exit')
+        bad_exit = []
     if bad_exit and helper_owns_stream:
         res.undecided('typestate', 'c3d::write normal exit', w.loc(), 'the stream is closed / flushed inside %s, which the typestate does not follow: the state at the normal exit is not decided [shape not read by the rule]' %
                       helper_owns_stream[0][0].name, function=w.sig, expr='normal-exit')
